@@ -128,13 +128,16 @@ SYMS = {
 }
 CONTROL = {'sort_rows': S('sort_rows', '{_i}')}      # buffering step: the monitor's positive control
 SIGMA = list(SYMS)
-SOURCES = ['gen1', 'gen2', 'tuple1', 'tuple-limit', 'genlist']
+SOURCES = ['gen1', 'gen2', 'tuple1', 'tuple-limit', 'genlist', 'gen1-take10', 'tuple1-take10', 'gen1-badrow']
 
 
 def run_one(srckind, path, n):
     """Returns ('ok', L list, pre list, delivered) or ('exc', e)."""
     nsrc = 2 if srckind == 'gen2' else 1
     mon = Monitor(nsrc)
+    take10 = srckind.endswith('-take10')
+    badrow = srckind.endswith('-badrow')
+    srckind = srckind.replace('-take10', '').replace('-badrow', '')
     with core.scratch_dir() as d:
         env = Env(d)
         env.expected_markers = set()
@@ -161,8 +164,25 @@ def run_one(srckind, path, n):
                 for r in rows:
                     mon.deliver(r['_src'], r['_i'])
                     yield r
+                    if take10 and mon.delivered >= 10:
+                        return              # the consumer stops reading this resource here
+            if badrow:
+                # one cell in mid-stream cannot be cast: the run must fail THERE, not after reading the rest
+                bad_at = n // 2
+
+                def spoil(rows):
+                    for r in rows:
+                        if r['_i'] == bad_at:
+                            r['r'] = 'not-a-number'
+                        yield r
+                links.append(spoil)
+                links.append(core.dataflows.set_type('r', type='integer', resources=None))
             links.append(terminal)
-            core.Flow(*links).process()
+            try:
+                core.Flow(*links).process()
+            except Exception:
+                if not badrow:
+                    raise
             mon.finish()
         except core.CaseTimeout:
             raise
@@ -249,6 +269,10 @@ def run(run):
     for k in SOURCES:
         if depth == 2:
             d_k = 2 if k in ('gen1', 'tuple1') else 1      # quick: pairs on the two basic sources, singles on the others
+        if k.endswith('-take10') or k.endswith('-badrow'):
+            tasks += [{'src': k, 'prefix': [s], 'depth': 1, 'sizes': ns} for s in SIGMA]
+            continue
+        if depth == 2:
             tasks += [{'src': k, 'prefix': [s], 'depth': d_k, 'sizes': ns} for s in SIGMA]
         else:
             # sequences of length <=2 on every size (incl. 10^4); length 3 on the two ends of the small sizes
